@@ -202,11 +202,36 @@ def unsolved():
         m = ro.Model()
         x = m.dvar(2)
         m.min(x.sum())
-        return {"k": m.st(x.sum() >= 1), "b": m.st(x >= 0), "loose": (x.sum() <= 4)}
+        return {"m": m, "k": m.st(x.sum() >= 1), "b": m.st(x >= 0), "loose": (x.sum() <= 4)}
     for name, f in (("LinConstr.dual unsolved", lambda ns: ns["k"].dual()), ("Bounds.dual unsolved", lambda ns: ns["b"].dual()),
                     ("LinConstr.dual of a constraint that was never added", lambda ns: ns["loose"].dual())):
         obs, _ = check_function("rsome.lp:dual", setup, f, [always_raises("raises", (RuntimeError,))], mode="D", label=name)
         out += obs
+
+    # an interface that returns no multipliers (MILP, OR-Tools): dual() says so and returns nothing -- never a number
+    def setup_nodual(c):
+        import warnings
+        ns = setup(c)
+        F = ns["k"].model.do_math() if False else None
+        m = ns["m"]
+        Fm = m.do_math()
+        sol = lp.Solution("rec", 1.0, np.ones(Fm.linear.shape[1]), 0, 0.0, y=None)
+        m.rc_model.solution = sol
+        m.solution = sol
+        return ns
+
+    def call_nodual(ns):
+        import warnings
+        res = []
+        for k in (ns["k"], ns["b"]):
+            with warnings.catch_warnings(record=True) as w:
+                warnings.simplefilter("always")
+                res.append((k.dual(), len(w)))
+        return res
+    obs, _ = check_function("rsome.lp:dual", setup_nodual, call_nodual,
+                            [post("no-multipliers-available: returns None and warns", lambda ns, res: all(v is None and nw >= 1 for v, nw in res))],
+                            mode="D", label="solution without multipliers", bounded=True, replay=None)
+    out += obs
     return out
 
 
